@@ -538,9 +538,13 @@ func (s *Sim) Step(maxSleep time.Duration) StepResult {
 	en, nextDue, any := s.enabled(now)
 	if len(en) == 0 {
 		_ = any
-		d := maxSleep
-		if nextDue >= 0 && nextDue-now < d {
-			d = nextDue - now
+		if nextDue < 0 {
+			// nothing is enabled and the passage of (simulated) time alone will enable nothing
+			return Idle
+		}
+		d := nextDue - now
+		if d > maxSleep {
+			d = maxSleep
 		}
 		if d <= 0 {
 			return Idle
@@ -595,6 +599,20 @@ func (s *Sim) fire(ev *Event, nEnabled int) {
 	s.orderHash = h.Sum64()
 	s.mu.Unlock()
 	ev.Fire()
+}
+
+// SleepIdle advances the virtual clock by up to d (interruptible by new events): used when the
+// scheduler has nothing to offer but the system might own timers the scheduler cannot see.
+func (s *Sim) SleepIdle(d time.Duration) {
+	if d <= 0 {
+		return
+	}
+	t := time.NewTimer(d)
+	select {
+	case <-s.wake:
+	case <-t.C:
+	}
+	t.Stop()
 }
 
 // Drain makes every pending and future operation fail fast so that all goroutines of the
